@@ -149,10 +149,30 @@ def named_traits(text):
     return out
 
 
+# parameters a trait accepts on a field (so that a field can carry the educed trait's own attribute before / after the stray one)
+OWN_FIELD = {'Debug': 'Debug(name = k)', 'Clone': 'Clone(method(m))', 'PartialEq': 'PartialEq(ignore)', 'PartialOrd': 'PartialOrd(rank = 1)', 'Ord': 'Ord(ignore)', 'Hash': 'Hash(ignore)', 'Default': 'Default = 1',
+             'Eq+PartialEq': 'Eq(ignore)', 'Ord+PartialOrd': 'PartialOrd(ignore)'}
+
+
 def stray_corpus():
-    """(E, D, base text, text with the stray attribute, position tag)"""
+    """(E, D, base text, text with the stray attribute, position tag); E may be a coupled pair 'A+B'"""
     out = []
-    for e in FEATS:
+    for e in FEATS + ['Clone+Copy', 'Eq+PartialEq', 'Ord+PartialOrd', 'Deref+DerefMut']:
+        if '+' in e:
+            # coupled traits educed together: one handler leaves the field attributes to its partner
+            es = e.split('+')
+            tl = ', '.join(es)
+            for d in FEATS:
+                if d in es:
+                    continue
+                mk = '#[educe(Deref, DerefMut)] ' if e == 'Deref+DerefMut' else ''
+                for form in STRAY_FORM[d][:1]:
+                    st = '#[educe(%s)] ' % form
+                    for pos, text in (('sn.f1', '#[derive(Educe)] #[educe(%s)] struct Ty { %sf0: u8, {S}f1: u8 }' % (tl, mk)), ('st.1', '#[derive(Educe)] #[educe(%s)] struct Ty(%su8, {S}u8);' % (tl, mk)),
+                                      ('en.V0.1', '#[derive(Educe)] #[educe(%s)] enum Ty { V0(%su8, {S}u8), V1 { %sf0: u8, f1: u8 } }' % (tl, mk, mk)),
+                                      ('en.V1.f1', '#[derive(Educe)] #[educe(%s)] enum Ty { V0(%su8, u8), V1 { %sf0: u8, {S}f1: u8 } }' % (tl, mk, mk))):
+                        out.append((e, d, text.replace('{S}', ''), text.replace('{S}', st), pos + '|coupled'))
+            continue
         tl = {'Into': 'Into(u8)'}.get(e, e)
         mark = {'Deref': 'Deref', 'DerefMut': 'DerefMut', 'Into': 'Into(u8)'}.get(e)      # field marker every element needs
         fm = ('#[educe(%s)] ' % mark) if mark else ''
@@ -180,6 +200,12 @@ def stray_corpus():
                     continue
                 for form in STRAY_FORM[d]:
                     out.append((e, d, base, text.replace('{S0}', '#[educe(%s)] ' % form), pos))
+                # the educed trait's own parameter on the same field in an earlier / later attribute, foreign attributes in between
+                if e in OWN_FIELD and pos in ('sn.f1', 'en.V1.f1', 'st.1', 'en.V0.1') and not (e == 'Debug' and pos in ('st.1', 'en.V0.1')):
+                    own = '#[educe(%s)] ' % OWN_FIELD[e]
+                    st = '#[educe(%s)] ' % STRAY_FORM[d][-1]
+                    out.append((e, d, text.replace('{S0}', own), text.replace('{S0}', own + '#[allow(dead_code)] ' + st), pos + '|own-first'))
+                    out.append((e, d, text.replace('{S0}', own), text.replace('{S0}', st + '#[doc = "d"] ' + own), pos + '|own-last'))
     return out
 
 
@@ -237,7 +263,7 @@ def check(v, tier):
         bref = xp.expand_all(binary_all, bases)
         badb = [(b, r.get('msg')) for b, r in zip(bases, bref) if r['st'] != 'ok']
         guard(not badb, 'stray-attribute corpus: a base request is refused by the all-features build: %s' % badb[:3])
-        corp += [(frozenset([e, d]), t) for e, d, b, t, pos in stray]
+        corp += [(frozenset(e.split('+') + [d]), t) for e, d, b, t, pos in stray]
         # requests the all-features build refuses (the C13 space): a build that has all the traits involved must refuse them with the same message
         import re
         from . import c13
